@@ -868,7 +868,10 @@ class Gen:
             # 0, 1 or 2+ arguments; mostly literals, sometimes patterns (a pattern without a value makes the
             # library's own $eq_type raise TypeError: known, see exc_class)
             n = rng.choice([0, 1, 1, 1, 2, 3])
-            return F(f, *[(self._pat(occurring) if occurring and rng.random() < 0.3 else V(rng.choice(self.lits + ['v=1'])))
+            # every fourth time the literals are of a component type that takes a three-octet TLV-TYPE (300, 301: both
+            # start with 0xFD on the wire) - seed C11-d2m11
+            pool = ['300=x', '300=x', '301=x'] if rng.random() < 0.25 else self.lits + ['v=1']
+            return F(f, *[(self._pat(occurring) if occurring and rng.random() < 0.3 else V(rng.choice(pool)))
                           for _ in range(n)])
         return F(f)
 
@@ -913,6 +916,9 @@ def alphabet(rules, rng, size=5):
     fresh = ['w', 'v=9'] if any(c.startswith('v=') for c in lits) or 'isv' in json.dumps(rules) else ['w', 'q']
     if 'u' not in lits:
         fresh = ['u'] + fresh
+    if any(c.startswith('300=') or c.startswith('301=') for c in lits):
+        # components of the two long-typed classes: the other type first, so that it survives the cut
+        fresh = [c for c in ('301=x', '300=y') if c not in lits] + fresh
     return lits + fresh[:max(1, size - len(lits))]      # never drops a literal; at least one fresh component
 
 
